@@ -23,25 +23,6 @@ Definition no_choice (l : list shape) : Prop :=
 Definition no_empty (l : list shape) : Prop := forall sh, In sh l -> sh_stmts sh <> [].
 
 (** ** list facts *)
-Lemma Forall2_In_r {A B} (R : A -> B -> Prop) l1 l2 y :
-  Forall2 R l1 l2 -> In y l2 -> exists x, In x l1 /\ R x y.
-Proof.
-  intros F. induction F as [|a b l1 l2 Hab F IH]; simpl; [contradiction|].
-  intros [<-|H]; [exists a; split; [left; reflexivity | exact Hab]|].
-  destruct (IH H) as (x & Hx & Hr). exists x. split; [right|]; assumption.
-Qed.
-
-Lemma Forall2_In_l {A B} (R : A -> B -> Prop) l1 l2 x :
-  Forall2 R l1 l2 -> In x l1 -> exists y, In y l2 /\ R x y.
-Proof.
-  intros F. induction F as [|a b l1 l2 Hab F IH]; simpl; [contradiction|].
-  intros [<-|H]; [exists b; split; [left; reflexivity | exact Hab]|].
-  destruct (IH H) as (y & Hy & Hr). exists y. split; [right|]; assumption.
-Qed.
-
-Lemma Forall2_len {A B} (R : A -> B -> Prop) l1 l2 : Forall2 R l1 l2 -> List.length l1 = List.length l2.
-Proof. intros F. induction F; simpl; [reflexivity | f_equal; assumption]. Qed.
-
 Lemma filter_length_le' {A} (p : A -> bool) (l : list A) : List.length (filter p l) <= List.length l.
 Proof. induction l as [|y l IH]; simpl; [lia|]. destruct (p y); simpl; lia. Qed.
 
